@@ -495,3 +495,8 @@ def run(ctx):
     rule_l3(ctx)
     rule_l4(ctx)
     rule_l5(ctx)
+    # "upstream stages are evaluated once per example behind a cache": iteration of the cache goes through the cached
+    # lookup (C10.H); "read-ahead is the configured buffer": the buffer size reaches every parallel stage (C07.B4)
+    from . import c10, c07
+    c10.rule_h_iter(ctx)
+    c07.rule_b4(ctx)
